@@ -45,7 +45,9 @@ ASSUMPTIONS = [
   "(index range, injectivity) and is argued in DESIGN 2.3, not machine checked",
   "A-WFREC: in a heap satisfying W2 the function root(x) (follow parent pointers) exists; it is assumed for the pre-state only "
   "and used to name the subtree of a root",
-  "opaque fields (_styles, _sets, _begin, _end, _space, _lang, _text) are not interpreted in the proof tier: value validity is bounded-only",
+  "values are opaque objects with uninterpreted isinstance / is-constant predicates: value validity is proved for the 31 properties "
+  "whose validation is a type test (set_style, put_initial_value, DiscreteAnimationStep); Extent, Origin, Position, LinePadding and "
+  "FontFamily (whose validation looks into the value) and add_animation_step are bounded-only",
   "frame rule (syntactic, checked on the AST each run): a method that assigns no field and mutates only through methods under "
   "contract preserves WF (push_children, remove_children, remove, copy_to and the Ruby/Rtc wrappers, as far as W1-W3/W5 go)",
   "ruby / ruby-text-container sequence patterns (W4 beyond the parent-kind/child-kind table) are bounded-only",
@@ -435,6 +437,98 @@ def h_set_body(cls):
                  {"op": "set_body", "cls": cls.__qualname__, "kinds": KIND_NAMES}, "only a root Body of this document becomes the body; nothing else changes")
 
 
+# ----------------------------------------------------------------------------------------------------------------------
+# value validity and `a rejected set_style / put_initial_value leaves the model unchanged`
+
+import ttconv.style_properties as sp_mod
+
+# independent validity table: property name -> python types / special constants a valid value may be (same table as the
+# bounded tier's oracle, rtc/c15.py VALID_TYPES, resolved to class objects here)
+VALID_SPEC = {
+  "BackgroundColor": ["ColorType"], "Color": ["ColorType"], "Direction": ["DirectionType"], "Disparity": ["LengthType"],
+  "Display": ["DisplayType"], "DisplayAlign": ["DisplayAlignType"], "FillLineGap": ["bool"], "FontSize": ["LengthType"],
+  "FontStyle": ["FontStyleType"], "FontWeight": ["FontWeightType"], "LineHeight": ["LengthType", "SpecialValues.normal"],
+  "LuminanceGain": ["Number"], "MultiRowAlign": ["MultiRowAlignType"], "Opacity": ["Number"], "Overflow": ["OverflowType"],
+  "Padding": ["PaddingType"], "RubyAlign": ["RubyAlignType"], "RubyPosition": ["AnnotationPositionType"],
+  "RubyReserve": ["RubyReserveType", "SpecialValues.none"], "Shear": ["Number"], "ShowBackground": ["ShowBackgroundType"],
+  "TextAlign": ["TextAlignType"], "TextCombine": ["TextCombineType"], "TextDecoration": ["TextDecorationType"],
+  "TextEmphasis": ["TextEmphasisType", "SpecialValues.none"], "TextOutline": ["TextOutlineType", "SpecialValues.none"],
+  "TextShadow": ["TextShadowType", "SpecialValues.none"], "UnicodeBidi": ["UnicodeBidiType"], "Visibility": ["VisibilityType"],
+  "WrapOption": ["WrapOptionType"], "WritingMode": ["WritingModeType"],
+}
+# Extent, Origin, Position, LinePadding (unit restrictions look into the value) and FontFamily (iterates the value) are bounded-only
+
+
+def spec_valid(prop_name, vterm):
+  import numbers
+  alts = []
+  for n in VALID_SPEC[prop_name]:
+    if n.startswith("SpecialValues."):
+      alts.append(H._ISOBJ(vterm, H.key_id(getattr(sp_mod.SpecialValues, n.split(".")[1]))))
+    elif n == "bool":
+      alts.append(H._ISINST(vterm, H.key_id(bool)))
+    elif n == "Number":
+      alts.append(H._ISINST(vterm, H.key_id(numbers.Number)))
+    else:
+      alts.append(H._ISINST(vterm, H.key_id(getattr(sp_mod, n))))
+  return z3.And(vterm != H.OBJ_NONE, z3.Or(*alts))
+
+
+def h_value_op(kind, prop_name, none_value=False):
+  """kind: 'set_style' (elements using the base implementation) | 'put_initial_value' (ContentDocument)"""
+  prop = getattr(sp_mod.StyleProperties, prop_name)
+  field = "_styles" if kind == "set_style" else "_initial_values"
+
+  def run(ctx):
+    classes = [c for c in ELEMENT_CLASSES if c.set_style is model.ContentElement.set_style] if kind == "set_style" else model.ContentDocument
+    s = Setup(ctx, classes)
+    me = s.self_.term
+    if none_value:
+      value, vterm = None, H.OBJ_NONE
+    else:
+      vterm = z3.Const("value", H.Obj)
+      ctx.inputs["value"] = vterm
+      assume(SymBool(vterm != H.OBJ_NONE))
+      value = H.SymOpaque(vterm)
+    st, r = core.call_real(getattr(s.self_, kind), prop, value, allowed=EXC)
+    if st == "raise":
+      s.unchanged()
+      prove(not none_value, "removing-a-value-is-never-rejected")
+      return
+    h1, h0 = s.heap, s.h0
+    S = z3.Select
+    pid = z3.IntVal(H.key_id(prop))
+    prove(SymBool(S(S(h1.arrays[field], me), pid) == vterm), "post/value-stored" if not none_value else "post/value-removed")
+    if not none_value:
+      prove(SymBool(spec_valid(prop_name, vterm)), "post/only-a-valid-value-is-stored",
+            note="what the guard tested on this path implies the independent validity table")
+    prove(SymBool(h1.arrays[field] == z3.Store(h0.arrays[field], me, z3.Store(S(h0.arrays[field], me), pid, vterm))),
+          "frame/only-this-entry-changes", kind="frame")
+    for f in h0.arrays:
+      if f != field:
+        prove(SymBool(h1.arrays[f] == h0.arrays[f]), f"frame/{f}-untouched", kind="frame")
+
+  qn = M + ("ContentElement.set_style" if kind == "set_style" else "ContentDocument.put_initial_value")
+  fns = [qn, f"ttconv.style_properties:StyleProperties.{prop_name}.validate"] + ([M + "ContentDocument.remove_initial_value"] if kind != "set_style" else [])
+  return Harness(f"{kind}[{prop_name}{',None' if none_value else ''}]", run, fns, None, {},
+                 "only a valid value is stored; a rejected call leaves the model unchanged; nothing else changes")
+
+
+def h_animation_step(prop_name):
+  prop = getattr(sp_mod.StyleProperties, prop_name)
+
+  def run(ctx):
+    s = Setup(ctx, model.Span)     # only to have a heap context
+    vterm = z3.Const("value", H.Obj)
+    ctx.inputs["value"] = vterm
+    assume(SymBool(vterm != H.OBJ_NONE))
+    st, step = core.call_real(model.DiscreteAnimationStep, prop, None, None, H.SymOpaque(vterm), allowed=EXC)
+    if st == "ok":
+      prove(SymBool(spec_valid(prop_name, vterm)), "post/a-step-only-exists-with-a-valid-value")
+  return Harness(f"DiscreteAnimationStep[{prop_name}]", run, [M + "DiscreteAnimationStep.__post_init__"], None, {},
+                 "an animation step can only be constructed with a valid value")
+
+
 def frame_rule_harness():
   """syntactic frame obligations (see ASSUMPTIONS): wrappers assign no field and mutate only through methods under contract"""
   import ast
@@ -500,6 +594,12 @@ def all_harnesses(tier):
     hs.append(h_remove(cs if len(cs) > 1 else cs[0], label))
   for label, cs in implementations("set_region"):
     hs.append(h_set_region(cs if len(cs) > 1 else cs[0], label))
+  for pn in VALID_SPEC:
+    hs.append(h_value_op("set_style", pn))
+    hs.append(h_value_op("put_initial_value", pn))
+    hs.append(h_animation_step(pn))
+  hs.append(h_value_op("set_style", "Color", none_value=True))
+  hs.append(h_value_op("put_initial_value", "Color", none_value=True))
   hs.append(h_put_region(model.ContentDocument))
   hs.append(h_set_body(model.ContentDocument))
   hs.append(frame_rule_harness())
